@@ -42,6 +42,27 @@ def fit_observed(name, kw, data):
   return est, cap, batches, wrn
 
 
+def fit_plain(name, kw, data):
+  """fit with the integer seed itself; capture basis and weights"""
+  import metric_learn
+  from metric_learn import scml as scml_mod
+  cap = {}
+  orig = scml_mod._BaseSCML._components_from_basis_weights
+
+  def spy(self, basis, w):
+    cap['basis'] = np.array(basis)
+    cap['w'] = np.array(w)
+    return orig(self, basis, w)
+  try:
+    scml_mod._BaseSCML._components_from_basis_weights = spy
+    with warnings.catch_warnings():
+      warnings.simplefilter('ignore')
+      getattr(metric_learn, name)(**kw).fit(*fits.fit_args(name, data))
+  finally:
+    scml_mod._BaseSCML._components_from_basis_weights = orig
+  return cap
+
+
 def triplet_points(name, kw, data):
   X = data['X']
   if name == 'SCML':
@@ -53,7 +74,7 @@ def triplet_points(name, kw, data):
   return X[t]
 
 
-def reference_weights(B, T, batches, gamma, beta, output_iter):
+def reference_weights(B, T, batches, gamma, beta, output_iter, batch_size=None):
   """the documented scheme, evaluated independently in NumPy on the recorded mini-batches: adaptive dual averaging with
   negative trimming, checkpoints at iterations output_iter, 2*output_iter, ... <= max_iter, lowest objective wins
   (the first one among equals).  Returns (weights, smallest hinge margin met)"""
@@ -68,7 +89,7 @@ def reference_weights(B, T, batches, gamma, beta, output_iter):
     idx = np.asarray(idx, dtype=int)
     sl = 1 + dd[idx].dot(w)
     margin = min(margin, float(np.abs(sl).min()))
-    g = dd[idx[sl > 0]].sum(axis=0) / len(idx)
+    g = dd[idx[sl > 0]].sum(axis=0) / (len(idx) if batch_size is None else batch_size)
     avg = (it * avg + g) / (it + 1)
     ada = np.sqrt(ada ** 2 + g ** 2)
     w = -(it + 1) / (gamma * (0.001 + ada)) * np.minimum(avg + beta, 0)
@@ -95,7 +116,7 @@ def run(ctx):
                  "binary64 rounding: model and implementation may sum in different orders (tolerance 1e-7)"]
   ok = ctx.build_property()
   terms, recs, kinds = [], [], []
-  n = 60 if thorough else 12
+  n = 72 if thorough else 18
   for i in range(n):
     name = ['SCML', 'SCML_Supervised'][i % 2]
     data = fits.make_data(rng, d=int(rng.integers(2, 5)))
@@ -103,13 +124,25 @@ def run(ctx):
     max_iter = int(rng.choice([40, 120, 300]))
     out_iter = int(rng.choice([1, 7, 50, max_iter]))
     out_iter = min(out_iter, max_iter)
-    kw = dict(max_iter=max_iter, output_iter=out_iter, batch_size=int(rng.integers(1, 11)),
+    if name == 'SCML' and rng.random() < 0.5:
+      # few triplets (still >= n_features): mini-batches are drawn with replacement, so batch_size may exceed their number
+      data = dict(data)
+      m = int(rng.integers(d, 10))
+      data['trip_idx'] = data['trip_idx'][rng.permutation(len(data['trip_idx']))[:m]]
+      few = m
+    else:
+      few = None
+    kw = dict(max_iter=max_iter, output_iter=out_iter,
+              batch_size=int(rng.integers(1, 14)) if (few is None or rng.random() < 0.3) else few + int(rng.integers(1, 6)),
               beta=float(rng.choice([1e-5, 1e-3])), gamma=float(rng.choice([5e-3, 5e-2, 0.5])),
               n_basis=int(rng.integers(d + 1, 5 * d)), random_state=int(rng.integers(0, 1000)))
     bkind = ['triplet_diffs', 'lda', 'array'][int(rng.integers(0, 3))]
     if name == 'SCML' and bkind == 'lda':
       bkind = 'triplet_diffs'
     if bkind == 'array':
+      if rng.random() < 0.4:
+        kw['n_basis'] = int(rng.integers(1, d + 1))      # fewer basis elements than features: low-rank transformation
+        ctx.hist('array_basis_smaller_than_d', True)
       B = rng.standard_normal((kw['n_basis'], d))
       kw['basis'] = B / np.linalg.norm(B, axis=1)[:, None]
       kw['n_basis'] = None
@@ -147,6 +180,23 @@ def run(ctx):
     if L.shape != ((n_active if lowrank else d), d) or lowrank != warned:
       ctx.fail_input('lowrank_shape', 'components_ shape / low-rank warning do not follow the number of active bases', inp,
                      observed=dict(shape=list(L.shape), n_active=n_active, warned=warned))
+    # the scheme "for the given random_state": with an INTEGER seed the mini-batches are the first draw of a fresh
+    # RandomState(seed): randint(0, n_triplets, size=(max_iter, batch_size)); the weights must be those of the documented
+    # scheme on exactly these batches (sub-gradient averaged over batch_size)
+    seed = int(kw['random_state'])
+    bref = np.random.RandomState(seed).randint(low=0, high=len(T), size=(kw['max_iter'], kw['batch_size']))
+    try:
+      cap2 = fit_plain(name, kw, data)
+      wref, margin = reference_weights(cap2['basis'], T, bref, kw['gamma'], kw['beta'], out_iter, batch_size=kw['batch_size'])
+      ctx.count('seeded_scheme', 1)
+      ctx.hist('n_triplets<batch_size', len(T) < kw['batch_size'])
+      if margin > 1e-6 and not np.allclose(wref, cap2['w'].ravel(), rtol=1e-6, atol=1e-9 * (np.abs(wref).max() + 1e-300)):
+        ctx.fail_input('documented_scheme', 'with an integer random_state the weights are not those of the documented scheme on the '
+                       'mini-batches RandomState(seed).randint(n_triplets, size=(max_iter, batch_size))', dict(inp, n_triplets=len(T)),
+                       observed=cap2['w'].ravel().tolist(), expected=wref.tolist())
+    except Exception as ex:
+      ctx.fail_input('fit_runs', '%s(basis=%s) with an integer seed raises %s' % (name, bkind, type(ex).__name__),
+                     dict(estimator=name, params=opt), observed=str(ex)[:200])
     terms.append("(Nat.eqb (c15_run %s %s %d%%nat %d%%nat %s %s %s %s) 0)" % (
         fhex(kw['gamma']), fhex(kw['beta']), kw['batch_size'], out_iter, gmat(Bz), gtrip(T),
         glist([gnlist(b) for b in batches]), gvec(wv)))
@@ -162,6 +212,35 @@ def run(ctx):
     recs.append(dict(inp=inp, w=wv, kind='metric'))
     ctx.seen((name, repr(sorted(opt.items()))), n_active > 0)
     ctx.sample(dict(estimator=name, params=opt, n_active=n_active, best_w=wv[:6].tolist()), limit=4)
+  # ---- fewer basis elements than features, every one of them useful (rows = normalised anchor-to-impostor differences):
+  # when ALL supplied bases stay active the transformation still has that many rows, with the warning
+  from metric_learn import SCML
+  for i in range(24 if thorough else 8):
+    data = fits.make_data(rng, d=int(rng.integers(3, 6)))
+    d = data['d']
+    T = data['X'][data['trip_idx']]
+    nb = int(rng.integers(1, d))
+    dirs = (T[:, 0] - T[:, 2])[rng.permutation(len(T))[:nb]]
+    B = dirs / np.linalg.norm(dirs, axis=1)[:, None]
+    kw = dict(basis=B, n_basis=None, beta=1e-5, gamma=float(rng.choice([5e-3, 5e-2])), max_iter=int(rng.choice([100, 300])),
+              output_iter=50, batch_size=int(rng.integers(2, 11)), random_state=int(rng.integers(0, 1000)))
+    ctx.count('lowrank_all_active', 1)
+    try:
+      est, cap, batches, wrn = fit_observed('SCML', kw, data)
+    except Exception as ex:
+      ctx.fail_input('fit_runs', 'SCML(basis=array with %d < n_features rows) raises %s' % (nb, type(ex).__name__),
+                     dict(estimator='SCML', basis=B.tolist()), observed=str(ex)[:200])
+      continue
+    wv = cap['w'].ravel()
+    n_active = int(np.sum(wv > 0))
+    ctx.hist('lowrank_all_active.all_active', n_active == nb)
+    L = np.asarray(est.components_)
+    warned = any('reduces the dimension' in m for m in wrn)
+    if L.shape != (n_active, d) or not warned:
+      ctx.fail_input('lowrank_shape', 'components_ shape / low-rank warning do not follow the number of active bases',
+                     dict(estimator='SCML', basis=B.tolist(), X=data['X'].tolist(), triplets_idx=data['trip_idx'].tolist(),
+                          params={k: v for k, v in kw.items() if k != 'basis'}),
+                     observed=dict(shape=list(L.shape), n_active=n_active, n_basis=nb, warned=warned))
   if ok:
     res = ctx.run_cases('c15', HEADER, terms, per_file=6, timeout=1200)
     skipped = set()
